@@ -148,6 +148,17 @@ func c05Run(in []string) []string {
 	qi := ancestor.NewQuorumIndexer(vals, dagi, c05Diff(diffk))
 
 	var order []int
+	flushedLen := 0
+	dropPending := func() int { // DropNotFlushed: every event added since the last Flush is gone
+		lost := len(order) - flushedLen
+		for _, id := range order[flushedLen:] {
+			delete(events, c05ID(id))
+			delete(num, c05ID(id))
+		}
+		order = order[:flushedLen]
+		index.DropNotFlushed()
+		return lost
+	}
 	lastn := func(k int) []int {
 		if k == 0 || k >= len(order) {
 			return order
@@ -170,7 +181,15 @@ func c05Run(in []string) []string {
 		c0 := crits
 		out := "BAD"
 		switch op[0] {
-		case "E":
+		case "F":
+			index.Flush()
+			flushedLen = len(order)
+			vu.Stat("flush")
+			out = "f"
+		case "D":
+			out = "d" + strconv.Itoa(dropPending())
+			vu.Stat("drop")
+		case "E", "A":
 			if len(op) < 4 {
 				break
 			}
@@ -196,13 +215,16 @@ func c05Run(in []string) []string {
 				return "e1"
 			}()
 			if res != "e1" {
-				index.DropNotFlushed()
 				delete(events, e.ID())
 				delete(num, e.ID())
+				dropPending()
 				vu.Stat("add_fail_" + res)
 			} else {
-				index.Flush()
 				order = append(order, ev.id)
+				if op[0] == "E" {
+					index.Flush()
+					flushedLen = len(order)
+				}
 				vu.Stat("add_ok")
 			}
 			out = res
@@ -681,6 +703,30 @@ func init() {
 					}
 					in := c05Header(d, c05FcSizes[r.Intn(len(c05FcSizes))], c05VcSizes[r.Intn(len(c05VcSizes))], 0, mal)
 					k := 6 + r.Intn(7)
+					if mal == 0 && r.Intn(5) == 0 {
+						// Flush / DropNotFlushed style: Adds without Flush, explicit F, and D followed by
+						// re-adding the dropped events (as a caller retrying after a failure would)
+						pendingFrom := 0
+						for j := 0; j < len(order); j++ {
+							op := c05EvOp(order[j])
+							op[1] = "A"
+							in = append(in, op...)
+							in = append(in, ";", "Q", strconv.Itoa(k), strconv.Itoa(r.Intn(2)))
+							switch r.Intn(6) {
+							case 0, 1:
+								in = append(in, ";", "F")
+								pendingFrom = j + 1
+							case 2:
+								in = append(in, ";", "D", ";", "Q", strconv.Itoa(k), "0", ";", "V", "3", ";", "M", "0")
+								j = pendingFrom - 1 // re-add everything that was lost
+							}
+						}
+						in = append(in, ";", "F", ";", "Q", "0", "0", ";", "V", "0", ";", "M", "0")
+						emit(in...)
+						i++
+						vu.Stat("scenario_flush_drop")
+						continue
+					}
 					bad := -1
 					if r.Intn(5) == 0 {
 						bad = r.Intn(len(order))
